@@ -1292,8 +1292,122 @@ class _DTypeProxy:
         return rnp.dtype(x)
 
 
+def np_flatnonzero(a):
+    a = a if isinstance(a, SA) else SA(_to_obj(a))
+    return SA(rnp.array([i for i, x in enumerate(a.a.ravel()) if bool(x if isinstance(x, (bool, rnp.bool_, SB)) else (x != 0))], dtype=object), "i")
+
+
+def np_nonzero(a):
+    a = a if isinstance(a, SA) else SA(_to_obj(a))
+    return a.nonzero()
+
+
+def _elementwise2(f):
+    def g(a, b, out=None):
+        aa, bb = _wrap(a), _wrap(b)
+        if not isinstance(aa, rnp.ndarray) and not isinstance(bb, rnp.ndarray):
+            return f(aa, bb)
+        aa, bb = rnp.broadcast_arrays(aa if isinstance(aa, rnp.ndarray) else _scalar_box(aa) if not isinstance(aa, (int, bool, Fraction)) else rnp.asarray(aa, dtype=object),
+                                      bb if isinstance(bb, rnp.ndarray) else _scalar_box(bb) if not isinstance(bb, (int, bool, Fraction)) else rnp.asarray(bb, dtype=object))
+        r = SA(_map2(f, aa, bb))
+        if out is not None:
+            out._inplace(r)
+            return out
+        return r
+
+    return g
+
+
+def _map2(f, a, b):
+    out = rnp.empty(a.shape, dtype=object)
+    for idx in rnp.ndindex(a.shape):
+        out[idx] = f(a[idx], b[idx])
+    return out
+
+
+def _min2(x, y):
+    if is_sym(x) or is_sym(y):
+        return s_min2(x, y)
+    return builtins.min(x, y)
+
+
+def _max2(x, y):
+    if is_sym(x) or is_sym(y):
+        return s_max2(x, y)
+    return builtins.max(x, y)
+
+
+def _elementwise1(f):
+    def g(a):
+        if isinstance(a, SA):
+            return SA(_map(f, a.a))
+        if hasattr(a, "to_numpy") or isinstance(a, (rnp.ndarray, list, tuple)):
+            return SA(_map(f, SA(_to_obj(a) if isinstance(a, (list, tuple)) else a).a))
+        return f(a)
+
+    return g
+
+
+def _floor1(x):
+    if isinstance(x, SN):
+        return SN.real(x.floor()) if not x.isint else x
+    if isinstance(x, (int, rnp.integer)):
+        return x
+    return Q(math.floor(to_fraction(x)))
+
+
+def _ceil1(x):
+    if isinstance(x, SN):
+        return -_floor1(-x)
+    if isinstance(x, (int, rnp.integer)):
+        return x
+    return Q(math.ceil(to_fraction(x)))
+
+
+def _sign1(x):
+    if isinstance(x, SN):
+        return ite(x > 0, 1, ite(x < 0, -1, 0))
+    return (x > 0) - (x < 0)
+
+
+def np_clip(a, lo, hi, out=None):
+    r = _elementwise2(_min2)(_elementwise2(_max2)(a, lo), hi)
+    if out is not None:
+        out._inplace(r)
+        return out
+    return r
+
+
+def np_cumsum(a):
+    a = a if isinstance(a, SA) else SA(_to_obj(a))
+    out, acc = [], 0
+    for x in a.a.ravel():
+        acc = acc + (SN.of(x) if isinstance(x, SB) else x)
+        out.append(acc)
+    return SA(_to_obj(out) if out else rnp.empty((0,), dtype=object))
+
+
+def np_count_nonzero(a):
+    return np_sum(SA(_map(lambda x: x if isinstance(x, (bool, rnp.bool_, SB)) else (x != 0), (a if isinstance(a, SA) else SA(_to_obj(a))).a), "b"))
+
+
+def _not1(x):
+    if isinstance(x, (bool, rnp.bool_)):
+        return not x
+    return ~SB.of(x)
+
+
+class _NPModule(types.ModuleType):
+    def __getattr__(self, name):
+        if name.startswith("__"):
+            raise AttributeError(name)
+        if hasattr(rnp, name):
+            raise Unsupported(f"numpy.{name} is not modelled by the symbolic numpy")
+        raise AttributeError(f"module 'numpy' has no attribute {name!r}")
+
+
 def build_module():
-    m = types.ModuleType("numpy")
+    m = _NPModule("numpy")
     m.__sx__ = True
     m.ndarray = SA
     m.nan = NAN
@@ -1337,5 +1451,39 @@ def build_module():
     m.sqrt = lambda x: x ** Fraction(1, 2)
     m.random = types.SimpleNamespace(default_rng=lambda *a, **k: RNG())
     m.typing = types.SimpleNamespace(NDArray=_t.List, DTypeLike=_t.Any, ArrayLike=_t.Any)
-    m.abs = abs
+    m.abs = m.absolute = _elementwise1(abs)
+    m.flatnonzero = np_flatnonzero
+    m.nonzero = np_nonzero
+    m.minimum = _elementwise2(_min2)
+    m.maximum = _elementwise2(_max2)
+    m.logical_and = _elementwise2(_and)
+    m.logical_or = _elementwise2(_or)
+    m.logical_not = _elementwise1(_not1)
+    m.clip = np_clip
+    m.floor = _elementwise1(_floor1)
+    m.ceil = _elementwise1(_ceil1)
+    m.rint = m.round = np_around
+    m.sign = _elementwise1(_sign1)
+    m.cumsum = np_cumsum
+    m.count_nonzero = np_count_nonzero
+    m.subtract = lambda a, b: a - b
+    m.divide = m.true_divide = lambda a, b: a / b
+    m.negative = lambda a: -a
+    m.copy = lambda a: a.copy() if isinstance(a, SA) else a
+    m.ravel = lambda a: a.ravel()
+    m.ones_like = lambda x, dtype=None: np_full(x.shape, True if (isinstance(x, SA) and x.kind == "b") else 1, dtype)
+    m.full_like = lambda x, v, dtype=None: np_full(x.shape, v, dtype)
+    m.empty_like = np_zeros_like
+    m.atleast_1d = lambda x: x if isinstance(x, SA) and x.ndim else np_array([x] if not isinstance(x, SA) else x.a.ravel().tolist())
+    m.isnan = _elementwise1(lambda x: x is NAN)
+    m.isfinite = _elementwise1(lambda x: x is not NAN)
+    m.inf = None
+    m.bool = bool
+    m.newaxis = None
+    m.integer = rnp.integer
+    m.floating = rnp.floating
+    m.number = rnp.number
+    m.generic = rnp.generic
+    m.errstate = rnp.errstate
+    m.seterr = lambda **k: {}
     return m
